@@ -39,6 +39,7 @@ func (f *Frame) loopEval(li *loopInfo, st *State, reach string) *EvalCtx {
 	if parent != nil && parent.hdrState != nil {
 		ev.outer = parent.hdrState
 	}
+	ev.pre = li.preState
 	ri, it := f.headerRange(li)
 	if ri != nil {
 		if v, ok := st.cells[ri]; ok {
@@ -64,6 +65,7 @@ func (f *Frame) loopName(li *loopInfo) string { return fmt.Sprintf("loop%d", li.
 
 func (f *Frame) enterLoop(li *loopInfo, cur *State, r string) (*State, string) {
 	c := f.c
+	li.preState = cur.clone()
 	// 1. invariants on entry
 	if li.lc != nil {
 		ev := f.loopEval(li, cur, r)
